@@ -28,6 +28,7 @@ def tasks(tier, seed):
     for sl in range(16): t.append(('t1', sl, 16, tier, seed))
     for sl in range(16): t.append(('t2s', sl, 16, tier, seed))
     t.append(('t4', 0, 1, tier, seed))
+    t.append(('consts', 0, 1, tier, seed))
     for sk, gk in F.t3_shards(1, 1, F.T3_KINDS_QUICK): t.append(('t3', 2, sk, gk, tier, seed))
     if tier == 'thorough':
         for sk, gk in F.t3_shards(1, 2, F.T3_KINDS_QUICK): t.append(('t3', 1, sk, gk, tier, seed))
@@ -46,7 +47,15 @@ def gen(task):
         return g if tier == 'thorough' else F.take_slice(g, 6, seed % 6)
     if fam == 't4': return F.t4()
     if fam == 't3': return F.t3_shard(task[1], task[2], task[3])
+    if fam == 'consts': return consts()
     raise KeyError(fam)
+
+
+def consts():
+    """several constant cells in one circuit (they are evaluated like gates and offered to the callback), feeding gates and ports"""
+    for k0, k0b, k1 in (('__const0__', 'tiel', '__const1__'), ('tiel', '__const0__', 'tieh'), ('__const0__', '__const0__', '__const1__')):
+        yield NL(2, [], [(k0, ()), (k0b, ()), (k1, ()), ('OR2', ('i0', 'g0')), ('AND2', ('i0', 'g2')), ('XOR2', ('i0', 'g1')), ('OR2', ('i1', 'g0'))], ['g3', 'g4', 'g5', 'g6'])
+        yield NL(1, [('dff', 'g1')], [(k1, ()), (k0, ()), ('NAND2', ('g0', 'q0')), ('NOR2', ('g1', 'i0'))], ['g2', 'g3', 'g0'])
 
 
 def run_task(task):
@@ -190,6 +199,17 @@ def check_case(res, case):
                         res.violation(_key(case, f'inject-l{li}-{iv}-{name}'), case,
                                       f'injecting {iv} at line {li}: {name} lane {i} inputs {fmt([a[i] for a in vals])} got {ref.CHARS[int(outi[name][i]) & 7]} expected {ref.CHARS[int(exp[i])]} {nl}')
                     if not np.array_equal(outi[name], base[name]): changed = True
+                # the overwrite belongs to that propagation only: a following plain propagation on the same object gives the plain results
+                if (li + len(iv)) % 3 == 0 or case.get('fam') == 'consts':
+                    for k in range(nI): lsim.assign_codes(simi, ipos[k], vals[k])
+                    for k in range(nS): lsim.assign_codes(simi, spos[k], vals[nI + k])
+                    simi.s_to_c(); simi.c_prop(); simi.c_to_s()
+                    for name, pos, _ in obs:
+                        g = lsim.read_codes(simi, 1, pos, n, simi.mdim)
+                        if m == 2: g = g * 3
+                        if not np.array_equal(g, base[name]):
+                            res.violation(_key(case, f'after-inject-l{li}-{iv}-{name}'), case, f'a plain propagation after one that injected {iv} at line {li} on the same simulator: {name} differs from the plain result {nl}')
+                    res.count('plain_after_injection')
                 if changed:
                     res.count('injections_changing_output')
                     res.sig((case['nl'], m, li, iv, tuple(outi[k].tobytes() for k in sorted(outi))))
